@@ -29,7 +29,7 @@ from ..mir import fmt, walk, const_val
 from ..spec import curve
 
 EXPLANATION = __doc__
-TECHNIQUE = "interval abstract interpretation over ssa terms with exact carry/remainder relations and trace partitioning on carries (inductive limb-bound invariants, overflow-assert discharge); limb-polynomial identities; term-domain dataflow with bit provenance (clamp, limb decoding), polynomial normal form of the ladder step vs. RFC 7748, exponent evaluation of addition chains, call-graph panic reachability"
+TECHNIQUE = "interval abstract interpretation over ssa terms with exact carry/remainder relations and trace partitioning on carries (inductive limb-bound invariants, overflow-assert discharge); limb-polynomial identities; term-domain dataflow with bit provenance (clamp, limb decoding), polynomial normal form of the ladder step vs. RFC 7748, exponent evaluation of addition chains, call-graph panic reachability; level (type-state) dataflow over every fe32 operation call site of the crate against the proved 3xTIGHT operand contract, who-may-access rule for Fe limbs"
 
 
 def clamp_bits(ctx, P, path, argname="arg1"):
